@@ -227,6 +227,10 @@ func checkC04(c *Ctx, w *World) {
 	}
 	c.floor("C04.pair", nEffects, 2)
 
+	// ---- premise: "completing a refresh does not perturb it" — the take-over rules of C07 (the replacement is unregistered,
+	// so its later reports are handled as reports of a pool connection and it cannot be swapped in twice)
+	importPremises(c, w, "C07", checkC07, []string{"C07.swap"}, "C04.refresh-complete")
+
 	// ---- C04.replacement: a non-READY report of a replacement has no effect at all
 	quiet := cs.And(A("found"), cs.Not(A("sReady")))
 	nq := 0
